@@ -149,4 +149,37 @@ theorem HW_writeAll_inv (s : HW) (buf : Bytes) (accepts : List Nat) (h : s.hashe
       · apply ih
         simp [HW.write, h]
 
+theorem HW_writeRetry_inv (s : HW) (buf : Bytes) (events : List Nat) (h : s.hashed = s.written) :
+    (HW.writeRetry s buf events).hashed = (HW.writeRetry s buf events).written := by
+  induction events generalizing s buf with
+  | nil => cases buf <;> simp [HW.writeRetry, h]
+  | cons a as ih =>
+    cases buf with
+    | nil => simp [HW.writeRetry, h]
+    | cons b bs =>
+      simp only [HW.writeRetry]
+      split
+      · exact ih s _ h
+      · apply ih
+        simp [HW.write, h]
+
+/-- what reached the inner writer, followed by what the caller still holds, is the caller's data: nothing is written twice or skipped -/
+theorem HW_writeRetry_prefix (s : HW) (buf : Bytes) (events : List Nat) :
+    ∃ k, k ≤ buf.length ∧ (HW.writeRetry s buf events).written = s.written ++ buf.take k := by
+  induction events generalizing s buf with
+  | nil => cases buf <;> exact ⟨0, by simp [HW.writeRetry]⟩
+  | cons a as ih =>
+    cases buf with
+    | nil => exact ⟨0, by simp [HW.writeRetry]⟩
+    | cons b bs =>
+      simp only [HW.writeRetry]
+      split
+      · exact ih s _
+      · obtain ⟨k, hk, e⟩ := ih (s.write (b :: bs) a).1 ((b :: bs).drop (s.write (b :: bs) a).2)
+        refine ⟨min a (b :: bs).length + k, ?_, ?_⟩
+        · simp only [HW.write, List.length_drop] at hk ⊢; omega
+        · rw [e]
+          simp only [HW.write, List.append_assoc, List.append_cancel_left_eq]
+          rw [List.take_add]
+
 end Xet.Merkle
